@@ -211,8 +211,8 @@ func c20Schema() string {
 
 // C20: option values are interpreted like protoc.
 func runC20(h *hx.H) {
-	h.Rule = "inputs: a custom option of each of 17 types (15 scalar types, an enum, a message) on field and on message level x 39 literals (integer boundaries of 32 and 64 bits in decimal, hex and octal, -0, floats incl. float32 overflow and underflow, inf/nan with and without sign, booleans, enum value names, unknown identifiers, strings incl. adjacent literals and invalid UTF-8, aggregates) x four statement shapes on field and message level (`(ext) = L`; path `(msg_ext).field = L`; aggregate `(msg_ext) = { field: L }`; aggregate with list `ri: [L, L]`), plus, for each of the nine element kinds, a standard option, a custom scalar and a path into a custom message option in all six orders (for extension ranges with one, two and three ranges sharing the option list), plus all ordered pairs of statements on one option (set twice, path then aggregate, repeated twice, two paths into one message) for a subset; oracle: reference model of protoc's OptionInterpreter::SetOptionValue and of the certain part of the text-format rules (DESIGN Appendix D): accept/reject and the stored value read back from the compiled options message; on success no uninterpreted_option remains; non-trivial = statement the reference rejects, or a value that needed a conversion"
-	h.Assumptions = append(h.Assumptions, "protoc itself is not available: the oracle is a reference model of its option interpreter; text-format corner cases the model is not sure about (identifier forms of floats and booleans in aggregates, invalid UTF-8) are UNKNOWN and never alarm")
+	h.Rule = "inputs: a custom option of each of 17 types (15 scalar types, an enum, a message) on field and on message level x 39 literals (integer boundaries of 32 and 64 bits in decimal, hex and octal, -0, floats incl. float32 overflow and underflow, inf/nan with and without sign, booleans, enum value names, unknown identifiers, strings incl. adjacent literals and invalid UTF-8, aggregates) x four statement shapes on field and message level (`(ext) = L`; path `(msg_ext).field = L`; aggregate `(msg_ext) = { field: L }`; aggregate with list `ri: [L, L]`), plus, for each of the nine element kinds, a standard option, a custom scalar and a path into a custom message option in all six orders (for extension ranges with one, two and three ranges sharing the option list), plus, for each of the nine element kinds and each target type (and each pair of target types), an option field that declares `targets`, set directly, through a path and inside an aggregate (allowed iff the element's kind is among the targets), plus all ordered pairs of statements on one option (set twice, path then aggregate, repeated twice, two paths into one message) for a subset; oracle: reference model of protoc's OptionInterpreter::SetOptionValue and of the certain part of the text-format rules (DESIGN Appendix D): accept/reject and the stored value read back from the compiled options message; on success no uninterpreted_option remains; non-trivial = statement the reference rejects, or a value that needed a conversion"
+	h.Assumptions = append(h.Assumptions, "protoc itself is not available: the oracle is a reference model of its option interpreter; for `targets`, protoc's ValidateTargetConstraints is taken to apply in every syntax, to the option field itself, to every field on a path and to every field set inside an aggregate; text-format corner cases the model is not sure about (identifier forms of floats and booleans in aggregates, invalid UTF-8) are UNKNOWN and never alarm")
 	schema := c20Schema()
 	for ti, t := range optTypes {
 		for li, l := range optLits {
@@ -239,6 +239,24 @@ func runC20(h *hx.H) {
 					continue
 				}
 				checkKind(h, idx, ki, perm, n)
+			}
+		}
+	}
+	// `targets` of option fields: every element kind x every declared target type (one or two),
+	// for an option set directly, through a path into a message option and inside an aggregate
+	for ki := range kindSpecs {
+		for form := 0; form < 4; form++ {
+			for t1 := range targetTypes {
+				for t2 := range targetTypes {
+					if form != 1 && t2 != 0 {
+						continue
+					}
+					idx, run := h.NextN()
+					if !run {
+						continue
+					}
+					checkTargets(h, idx, ki, form, t1, t2)
+				}
 			}
 		}
 	}
@@ -722,5 +740,64 @@ func checkKind(h *hx.H, idx int64, ki, perm, n int) {
 				return
 			}
 		}
+	}
+}
+
+// targetTypes[i] is the target type of the element kind kindSpecs[i].
+var targetTypes = []string{"FILE", "MESSAGE", "FIELD", "ONEOF", "EXTENSION_RANGE", "ENUM", "ENUM_ENTRY", "SERVICE", "METHOD"}
+
+// checkTargets: an option field that declares `targets` may be set only on an element of one of
+// those kinds (descriptor.proto FieldOptions.targets; protoc's ValidateTargetConstraints), whether
+// it is the option itself (form 0: one target, form 1: two), a field reached through a path
+// (form 2) or a field set inside an aggregate value (form 3).
+func checkTargets(h *hx.H, idx int64, ki, form, t1, t2 int) {
+	h.Eval(1)
+	h.State(1)
+	h.Trans(1)
+	k := kindSpecs[ki]
+	var schema strings.Builder
+	schema.WriteString("syntax = \"proto2\";\npackage o;\nimport \"google/protobuf/descriptor.proto\";\n")
+	tl := "targets = TARGET_TYPE_" + targetTypes[t1]
+	allowed := t1 == ki
+	if form == 1 {
+		tl += ", targets = TARGET_TYPE_" + targetTypes[t2]
+		allowed = allowed || t2 == ki
+	}
+	var stmt string
+	switch form {
+	case 0, 1:
+		fmt.Fprintf(&schema, "extend google.protobuf.%s { optional int32 t = 50001 [%s]; }\n", k.target, tl)
+		stmt = "(o.t) = 7"
+	case 2, 3:
+		fmt.Fprintf(&schema, "message KT { optional int32 plain = 1; optional int32 t = 2 [%s]; }\nextend google.protobuf.%s { optional KT kt = 50001; }\n", tl, k.target)
+		stmt = "(o.kt).t = 7"
+		if form == 3 {
+			stmt = "(o.kt) = { plain: 1 t: 7 }"
+		}
+	}
+	body := map[string]string{
+		"file":            "option %S%; message M { optional int32 f = 1; }",
+		"message":         "message M { option %S%; optional int32 f = 1; }",
+		"field":           "message M { optional int32 f = 1 [%S%]; }",
+		"oneof":           "message M { oneof o { option %S%; int32 f = 1; } }",
+		"extension-range": "message M { extensions 100 to 199 [%S%]; }",
+		"enum":            "enum E { option %S%; V = 0; }",
+		"enum-value":      "enum E { V = 0 [%S%]; }",
+		"service":         "message M {} service S { option %S%; rpc R(M) returns (M); }",
+		"method":          "message M {} service S { rpc R(M) returns (M) { option %S%; } }",
+	}[k.name]
+	src := "syntax = \"proto2\";\npackage q;\nimport \"t.proto\";\n" + strings.ReplaceAll(body, "%S%", stmt) + "\n"
+	desc := fmt.Sprintf("%s carries `%s` whose field declares [%s]", k.name, stmt, tl)
+	res := compile(fileSet{"t.proto": schema.String(), "main.proto": src}, protocompile.SourceInfoNone, "main.proto")
+	h.Trace(1)
+	if t1 != ki {
+		h.NonTrivial++
+	}
+	h.Outcome(fmt.Sprintf("allowed=%v accepted=%v", allowed, res.err == nil))
+	switch {
+	case allowed && res.err != nil:
+		h.Violate("targets-rejects-allowed:"+k.name, hx.CaseID(idx), desc+": the element kind is among the targets but the compiler rejects: "+first(res.errs), map[string]any{"schema": schema.String(), "source": src})
+	case !allowed && res.err == nil:
+		h.Violate("targets-accepts-forbidden:"+k.name, hx.CaseID(idx), desc+": the element kind is not among the targets but the compiler accepts", map[string]any{"schema": schema.String(), "source": src})
 	}
 }
